@@ -94,13 +94,13 @@ impl TimeFilter for ts::TimeSpan {
             if start < end {
                 end
             } else {
-                end.add_hours(24)
-                    .expect("overflow during TimeSpan resolution")
+                // A variable start (e.g. `sunset+23:00`) may itself lie on the next day: the span cannot
+                // extend past 48:00 nor end before it starts.
+                end.add_hours(24).unwrap_or(ExtendedTime::MIDNIGHT_48)
             }
         };
 
-        assert!(start <= end);
-        start..end
+        start..std::cmp::max(start, end)
     }
 }
 
